@@ -40,15 +40,27 @@ Theorem C16_success_host_commit :
       fund (h_wallet h) (ct_hfund (rq_terms r)) false = Some (sel, w') ∧
       ho_host (host_run fixed k e h m1 m2) =
         mk_host (h_key h) w' (c :: h_contracts h)
-          (mk_tset (rq_parents r) (mk_atxn c (pids (rq_inputs r)) (uids sel)) :: h_pool h)
-          (mk_tset (rq_parents r) (mk_atxn c (pids (rq_inputs r)) (uids sel)) :: h_bcast h) ∧
+          (mk_tset (e_tip e) (rq_parents r) (mk_atxn c (pids (rq_inputs r)) (uids sel)) :: h_pool h)
+          (mk_tset (e_tip e) (rq_parents r) (mk_atxn c (pids (rq_inputs r)) (uids sel)) :: h_bcast h) ∧
       sent_final (ho_sent (host_run fixed k e h m1 m2)) =
-        Some (mk_final (S (rq_parents r)) true (mk_atxn c (pids (rq_inputs r)) (uids sel))) ∧
+        Some (mk_final (e_tip e) (S (rq_parents r)) true (mk_atxn c (pids (rq_inputs r)) (uids sel))) ∧
       ho_funded (host_run fixed k e h m1 m2) = sel ∧
       co_terms c = host_terms h r ∧ co_rsig c = rs_csig s ∧ doubly_signed k c ∧
       e_pool_ok e = true.
 Proof. exact host_success. Qed.
 Print Assumptions C16_success_host_commit.
+
+(** The basis and set a committed run returns are the basis and set its pool accepted; the
+    basis is the one the set's proofs were made for (the chain manager's tip). *)
+Theorem C16_success_returns_pooled_set :
+  ∀ fixed k e h m1 m2,
+    ho_ok (host_run fixed k e h m1 m2) = true →
+    ∃ set f, h_pool (ho_host (host_run fixed k e h m1 m2)) = set :: h_pool h ∧
+      sent_final (ho_sent (host_run fixed k e h m1 m2)) = Some f ∧
+      f_basis f = ts_basis set ∧ f_txn f = ts_txn set ∧ f_len f = S (ts_parents set) ∧
+      ts_basis set = e_tip e.
+Proof. exact host_success_returns_pooled. Qed.
+Print Assumptions C16_success_returns_pooled_set.
 
 (** Failure: any failed or abandoned attempt leaves the contractor (and what was broadcast,
     and the sets in the pool) unchanged. *)
